@@ -104,11 +104,18 @@ def run(ctx):
             from scipy.interpolate import InterpolatedUnivariateSpline as Spl
             lnd = Spl(np.log10(h3.m), np.log(h3.dndm), k=3)
             lo, hi = cfg["log_mmin"], min(np.log10(np.sort(m3)[int(0.995 * N)]), np.log10(h3.m[-1]))
-            for bins in (30, np.linspace(lo + 0.3 * (hi - lo), lo + 0.8 * (hi - lo), 12), np.linspace(lo, hi, 25)):
+            over_ = np.arange(lo - 0.37, np.log10(m3.max()) + 0.6, 0.25)        # explicit edges overhanging the sample at both ends, m_min strictly inside a bin
+            for bins in (30, np.linspace(lo + 0.3 * (hi - lo), lo + 0.8 * (hi - lo), 12), np.linspace(lo, hi, 25), over_):
                 c, est = dndm_from_sample(m3, Vol, bins=bins)
                 edges = np.histogram_bin_edges(np.log10(m3), bins)
                 cnt, _ = np.histogram(np.log10(m3), edges)
                 ok = (cnt >= 100) & np.isfinite(est) & (edges[1:] <= np.log10(h3.m[-1]))     # dn/dm is tabulated up to M_max only
+                if bins is over_:
+                    # the bin that is only partly covered by the sample (it contains m_min) must not be returned as a number
+                    ipart = int(np.searchsorted(edges, lo, side="right") - 1)
+                    if 0 <= ipart < len(est) and edges[ipart] < lo - 1e-9 and np.isfinite(est[ipart]) and cnt[ipart] > 0:
+                        viol("dndm_from_sample/partly-covered-bin", f"bins overhanging both ends: the bin [{edges[ipart]:.3f}, {edges[ipart + 1]:.3f}) contains the minimum mass 10^{lo} and is only partly covered by the sample, but dn/dm = {est[ipart]:.4g} is returned for it (instead of NaN)",
+                             {"config": cfg, "bins": "np.arange(log_mmin - 0.37, log10(max m) + 0.6, 0.25)"})
                 ok[0] = ok[-1] = False
                 # bin-averaged expectation: integrate dn/dm over the bin
                 zmax = 0.0
@@ -124,7 +131,7 @@ def run(ctx):
                     viol("dndm_from_sample/poisson", f"binned dn/dm deviates from the mass function by {zmax:.1f} sigma in a well-populated bin", {"config": cfg})
     out["coverage"] = {
         "evaluations": ncase * 4, "distinct_nontrivial": ncase,
-        "rule": "configs (m_min, M_max, z, fit) incl. narrow ranges whose top is not deep in the tail; N in {2e4,5e4} (quick) up to 3e5; fixed seeds derived from VERIF_SEED; per config: list clauses, survival-function z-scores at up to 12 thresholds, repetition after the caller modified an earlier result, dndm_from_sample with integer bins and two explicit edge arrays",
+        "rule": "configs (m_min, M_max, z, fit) incl. narrow ranges whose top is not deep in the tail; N in {2e4,5e4} (quick) up to 3e5; fixed seeds derived from VERIF_SEED; per config: list clauses, survival-function z-scores at up to 12 thresholds, repetition after the caller modified an earlier result, dndm_from_sample with integer bins and three explicit edge arrays (one overhanging the sample at both ends)",
         "samples": samples, "search": "statistical oracles on the real sampler",
     }
     return out
